@@ -337,3 +337,17 @@ pub assume_specification<C> [::elliptic_curve::SecretKey::<C>::public_key] (sk: 
 // ghost helper: names the curve parameter of `elliptic_curve::SecretKey<C>` (type-level only)
 pub trait CurveOf { type C: ::elliptic_curve::Curve; }
 impl<C: ::elliptic_curve::Curve> CurveOf for ::elliptic_curve::SecretKey<C> { type C = C; }
+
+verus!{
+// ---------------------------------------------------------------- sizes of the external algorithm types
+// (associated-type projections of impls outside the crate are opaque to Verus; each value is
+// cross-checked by the Kani harness `sizes_table`)
+pub broadcast axiom fn nh_sha256() ensures #[trigger] nh_of::<sha2::Sha256>() == 32;
+pub broadcast axiom fn nh_sha384() ensures #[trigger] nh_of::<sha2::Sha384>() == 48;
+pub broadcast axiom fn nh_sha512() ensures #[trigger] nh_of::<sha2::Sha512>() == 64;
+pub broadcast axiom fn sz_aes128() ensures #[trigger] nk_of::<aes_gcm::Aes128Gcm>() == 16, #[trigger] nn_of::<aes_gcm::Aes128Gcm>() == 12, #[trigger] nt_of::<aes_gcm::Aes128Gcm>() == 16;
+pub broadcast axiom fn sz_aes256() ensures #[trigger] nk_of::<aes_gcm::Aes256Gcm>() == 32, #[trigger] nn_of::<aes_gcm::Aes256Gcm>() == 12, #[trigger] nt_of::<aes_gcm::Aes256Gcm>() == 16;
+pub broadcast axiom fn sz_chacha() ensures #[trigger] nk_of::<chacha20poly1305::ChaCha20Poly1305>() == 32, #[trigger] nn_of::<chacha20poly1305::ChaCha20Poly1305>() == 12, #[trigger] nt_of::<chacha20poly1305::ChaCha20Poly1305>() == 16;
+pub broadcast axiom fn sz_empty() ensures #[trigger] nk_of::<crate::aead::EmptyAeadImpl>() == 0, #[trigger] nn_of::<crate::aead::EmptyAeadImpl>() == 128, #[trigger] nt_of::<crate::aead::EmptyAeadImpl>() == 0;
+pub broadcast group alg_sizes { nh_sha256, nh_sha384, nh_sha512, sz_aes128, sz_aes256, sz_chacha, sz_empty }
+}
